@@ -63,7 +63,7 @@ NewThread(x, kind, mode, i, obj, pt, pl, idx, w) ==
   [x |-> x, kind |-> kind, mode |-> mode, i |-> i, res |-> NilPR, obj |-> obj, w |-> w,
    cell |-> [j \in 1..N |-> "-"], cellres |-> [j \in 1..N |-> NilPR],
    hg |-> [j \in 1..N |-> [count |-> 0, sent |-> FALSE, chan |-> <<>>, n |-> 0, aobj |-> <<>>]],
-   oldobj |-> [j \in 1..N |-> 0], pt |-> pt, pl |-> pl, idx |-> idx, sub |-> "-"]
+   oldobj |-> [j \in 1..N |-> 0], pt |-> pt, pl |-> pl, idx |-> idx, sub |-> "-", snap |-> NoLast]
 
 \* what user code reads from the execution it is handed (counters are shared atomics; last result is per copy)
 Snap(X, last) == [att |-> X.att, exe |-> X.exe, ret |-> X.ret, hdg |-> X.hdg, lr |-> last.r, le |-> last.e]
@@ -82,13 +82,16 @@ Lab(ev, S, t, layer, last, extra) == LabA(ev, S, t, layer, last, extra, S.th[t].
 (* ---- Down: thread t enters layer i ---- *)
 DownSteps(S, t) ==
   LET T == TT(S, t)   X == XX(S, t)   i == T.i   o == T.obj IN
-  IF i = N + 1 THEN
-     \* the wrapped function is invoked: next entry of the execution's script
+  IF i = N + 1 /\ T.sub = "-" THEN
+     \* executor.execute's outerFn: the function gets a copy of the execution taken now (under the mutex) ...
+     Silent([S EXCEPT !.th[t].sub = "call", !.th[t].snap = X.last[o]])
+  ELSE IF i = N + 1 THEN
+     \* ... and is invoked: next entry of the execution's script
      LET k == X.calls + 1
          f == IF k <= Len(cfg.fns[T.x]) THEN cfg.fns[T.x][k] ELSE cfg.fnDefault
          X1 == [X EXCEPT !.calls = k]
-         S1 == Block(SetX(S, t, X1), t, [k |-> "fn", until |-> now + f.d, coop |-> f.coop, kk |-> k])
-     IN One(S1, Lab("FnStart", S, t, N + 1, X.last[o], [k |-> k, hedge |-> X.objs[o].hedge, canceled |-> Canceled(X, o)]))
+         S1 == [Block(SetX(S, t, X1), t, [k |-> "fn", until |-> now + f.d, coop |-> f.coop, kk |-> k]) EXCEPT !.th[t].sub = "-"]
+     IN One(S1, Lab("FnStart", S, t, N + 1, T.snap, [k |-> k, hedge |-> X.objs[o].hedge, canceled |-> Canceled(X, o)]))
   ELSE
   LET p == Stack[i] IN
   CASE p.k \in {"retry", "fb"} -> Silent(Desc(S, t))
@@ -116,7 +119,7 @@ DownSteps(S, t) ==
          (IF canc THEN Silent(Ret(S, t, i - 1, Failure(Err(X, o)))) ELSE {})
          \cup (IF free THEN Silent(Desc([S EXCEPT !.pol[p.id] = @ + 1], t)) ELSE {})
          \cup (IF ~canc /\ ~free
-               THEN IF p.wait = 0 THEN One(Ret(S, t, i - 1, Failure(Leaf("ErrFull"))), Lab("OnFull", S, t, i, X.last[o], NoX))
+               THEN IF p.wait = 0 THEN Silent([S EXCEPT !.th[t].mode = "onfull"])
                     ELSE Silent(Block(S, t, [k |-> "bh", until |-> now + p.wait, coop |-> FALSE, kk |-> 0]))
                ELSE {})
 
@@ -126,11 +129,14 @@ DownSteps(S, t) ==
 RetrySteps(S, t) ==
   LET T == TT(S, t)   X == XX(S, t)   i == T.i   o == T.obj   p == Stack[i]   pr == T.res   last == Pair(pr.r, pr.e) IN
   CASE T.sub = "-" ->
-         \* IsCanceledWithResult right after the inner call
+         \* IsCanceledWithResult right after the inner call (mutex)
          IF Canceled(X, o) THEN Silent(Ret(S, t, i - 1, CancelResult(X, o)))
-         ELSE IF X.rs[i].exceeded THEN Silent(Ret(S, t, i - 1, pr))
+         ELSE Silent([S EXCEPT !.th[t].sub = "pe"])
+    [] T.sub = "pe" ->
+         \* retriesExceeded? else PostExecute: classify, policy listener
+         IF X.rs[i].exceeded THEN Silent([Ret(S, t, i - 1, pr) EXCEPT !.th[t].sub = "-"])
          ELSE IF ~IsFailureX(p.h, pr.r, pr.e)
-         THEN One(Ret(S, t, i - 1, WithDone(pr, TRUE, TRUE)), Lab("OnSuccess", S, t, i, last, NoX))
+         THEN One([Ret(S, t, i - 1, WithDone(pr, TRUE, TRUE)) EXCEPT !.th[t].sub = "-"], Lab("OnSuccess", S, t, i, last, NoX))
          ELSE One([S EXCEPT !.th[t].sub = "f1"], Lab("OnFailure", S, t, i, last, NoX))
     [] T.sub = "f1" ->
          \* retry executor's OnFailure: count, limits, abort; listeners
@@ -175,14 +181,17 @@ FallbackSteps(S, t) ==
          IF IsFailureX(p.h, pr.r, pr.e)
          THEN One([S EXCEPT !.th[t].sub = "c1"], Lab("OnFailure", S, t, i, last, NoX))
          ELSE One(Ret(S, t, i - 1, WithDone(pr, TRUE, TRUE)), Lab("OnSuccess", S, t, i, last, NoX))
-    [] T.sub = "c1" ->      \* IsCanceledWithResult before running the fallback
+    [] T.sub = "c1" ->      \* IsCanceledWithResult before running the fallback (mutex)
          IF Canceled(X, o) THEN Silent([Ret(S, t, i - 1, CancelResult(X, o)) EXCEPT !.th[t].sub = "-"])
-         ELSE One([S EXCEPT !.th[t].sub = "c2"], Lab("FallbackFn", S, t, i, last, NoX))
+         ELSE Silent([S EXCEPT !.th[t].sub = "fn"])
+    [] T.sub = "fn" -> One([S EXCEPT !.th[t].sub = "c2"], Lab("FallbackFn", S, t, i, last, NoX))
     [] T.sub = "c2" ->      \* ... and after it
          IF Canceled(X, o) THEN Silent([Ret(S, t, i - 1, CancelResult(X, o)) EXCEPT !.th[t].sub = "-"])
-         ELSE LET ok == ~IsFailureX(p.h, p.fr, p.fe) IN
-              One([Ret(S, t, i - 1, PR(p.fr, p.fe, TRUE, ok, ok)) EXCEPT !.th[t].sub = "-"],
-                  LabD("OnFallbackExecuted", S, t, i, Pair(p.fr, p.fe), NoX))
+         ELSE Silent([S EXCEPT !.th[t].sub = "ev"])
+    [] T.sub = "ev" ->
+         LET ok == ~IsFailureX(p.h, p.fr, p.fe) IN
+         One([Ret(S, t, i - 1, PR(p.fr, p.fe, TRUE, ok, ok)) EXCEPT !.th[t].sub = "-"],
+             LabD("OnFallbackExecuted", S, t, i, Pair(p.fr, p.fe), NoX))
 
 \* cancel every other started attempt, one execution.Cancel(nil) at a time (T.sub counts through them)
 HedgeCancelLosers(S, t, i, win, res) ==
@@ -198,7 +207,13 @@ UpSteps(S, t) ==
      \* executor.execute's epilogue, then the caller (or the async result) gets the result
      CASE T.sub = "-" -> One([S EXCEPT !.th[t].sub = "done"], LabD(IF pr.sall THEN "ExecOnSuccess" ELSE "ExecOnFailure", S, t, 0, last, NoX))
        [] T.sub = "done" -> One([S EXCEPT !.th[t].sub = "ret"], LabD("ExecOnDone", S, t, 0, last, NoX))
-       [] T.sub = "ret" -> One(End(SetX(S, t, [X EXCEPT !.final = pr, !.returned = TRUE]), t), [ev |-> "Return", x |-> T.x, r |-> pr.r, e |-> pr.e])
+       [] T.sub = "ret" ->
+            IF X.async
+            THEN \* executionResult.record, first step: result.Store
+                 Silent([SetX(S, t, [X EXCEPT !.final = pr, !.stored = TRUE]) EXCEPT !.th[t].sub = "rec2"])
+            ELSE One(End(SetX(S, t, [X EXCEPT !.final = pr, !.returned = TRUE]), t), [ev |-> "Return", x |-> T.x, r |-> pr.r, e |-> pr.e])
+       [] T.sub = "rec2" -> Silent([SetX(S, t, [X EXCEPT !.doneflag = TRUE]) EXCEPT !.th[t].sub = "rec3"])      \* done.Store(true)
+       [] T.sub = "rec3" -> Silent(End(SetX(S, t, [X EXCEPT !.closed = TRUE, !.returned = TRUE]), t))              \* close(doneChan)
   ELSE IF T.kind = "att" /\ i = T.pl THEN
      \* a hedge attempt's goroutine after innerFn returned: counter, cancellable?, flag, send
      LET p == Stack[i]   M == S.th[T.pt]   h == M.hg[i]
@@ -251,7 +266,11 @@ CancellerSteps(S, t) ==
   CASE T.sub = "ctx" -> Silent([SetX(S, t, CancelCtx(X, 1, "CtxCanceled")) EXCEPT !.th[t].sub = "ret"])
     [] T.sub = "deadline" -> Silent([SetX(S, t, CancelCtx(X, 1, "CtxDeadline")) EXCEPT !.th[t].sub = "ret"])
     \* ExecutionResult.Cancel: execution.Cancel(ErrExecutionCanceled result) under the mutex ...
-    [] T.sub = "async1" -> Silent([SetX(S, t, [CancelExec(X, 2, Failure(Leaf("ExecCanceled"))) EXCEPT !.cancel1 = TRUE]) EXCEPT !.th[t].sub = "async2"])
+    [] T.sub = "async1" ->
+         LET S1 == [SetX(S, t, [CancelExec(X, 2, Failure(Leaf("ExecCanceled"))) EXCEPT !.cancel1 = TRUE]) EXCEPT !.th[t].sub = "async2"] IN
+         \* (the harness can hold the canceller between the two halves for T.idx units: hook "asyncCancel.mid")
+         IF T.idx > 0 THEN Silent([S1 EXCEPT !.th[t].mode = "wait", !.th[t].w = [k |-> "csleep", until |-> now + T.idx, coop |-> FALSE, kk |-> 0]])
+         ELSE Silent(S1)
     \* ... then, separately, the result's own cancelFunc()
     [] T.sub = "async2" -> Silent([SetX(S, t, CancelCtx(X, 2, "CtxCanceled")) EXCEPT !.th[t].sub = "ret"])
     [] T.sub = "ret" -> One(End(S, t), [ev |-> "CancelRet", x |-> T.x])
@@ -271,11 +290,13 @@ WakeSteps(S, t) ==
          IF w.until <= now \/ Canceled(X, o) THEN Silent([S EXCEPT !.th[t].mode = "up", !.th[t].w = NoWait]) ELSE {}
     [] w.k = "sleep" ->
          IF w.until <= now THEN Silent([S EXCEPT !.th[t].mode = "up", !.th[t].w = NoWait]) ELSE {}
+    [] w.k = "csleep" ->
+         IF w.until <= now THEN Silent([S EXCEPT !.th[t].mode = "canc", !.th[t].w = NoWait]) ELSE {}
     [] w.k = "bh" ->
          LET p == Stack[i] IN
          (IF Canceled(X, o) THEN Silent([Ret(S, t, i - 1, Failure(Err(X, o))) EXCEPT !.th[t].w = NoWait]) ELSE {})
          \cup (IF S.pol[p.id] < p.max THEN Silent([Desc([S EXCEPT !.pol[p.id] = @ + 1], t) EXCEPT !.th[t].w = NoWait]) ELSE {})
-         \cup (IF w.until <= now THEN One([Ret(S, t, i - 1, Failure(Leaf("ErrFull"))) EXCEPT !.th[t].w = NoWait], Lab("OnFull", S, t, i, X.last[o], NoX)) ELSE {})
+         \cup (IF w.until <= now THEN Silent([S EXCEPT !.th[t].mode = "onfull", !.th[t].w = NoWait]) ELSE {})
     [] w.k = "hedge" ->
          LET p == Stack[i]   h == T.hg[i]
              gotRes == h.chan # <<>>
@@ -286,8 +307,9 @@ WakeSteps(S, t) ==
                ELSE IF haveRes
                THEN Silent([HedgeCancelLosers(S1, t, i, h.chan[1].idx, h.chan[1].res) EXCEPT !.th[t].w = NoWait, !.th[t].hg[i].chan = <<>>])
                ELSE \* CopyForHedge, OnHedge, start the next attempt, wait again
-                    LET X1 == NewObj([X EXCEPT !.att = @ + 1, !.hdg = @ + 1], o, TRUE)   c == Len(X1.objs) IN
-                    Silent([SetX(S1, t, X1) EXCEPT !.th[t].mode = "hedgeev", !.th[t].w = NoWait, !.th[t].hg[i].aobj = Append(h.aobj, c)])
+                    \* CopyForHedge: copy, then attempts.Add(1), then hedges.Add(1) (two atomics: an observer can see the first alone)
+                    LET X1 == NewObj([X EXCEPT !.att = @ + 1], o, TRUE)   c == Len(X1.objs) IN
+                    Silent([SetX(S1, t, X1) EXCEPT !.th[t].mode = "hedgecnt", !.th[t].w = NoWait, !.th[t].hg[i].aobj = Append(h.aobj, c)])
          IN (IF gotRes THEN After(S, TRUE) ELSE {}) \cup (IF timer THEN After(S, FALSE) ELSE {})
     [] OTHER -> {}
 
@@ -296,6 +318,17 @@ Steps(S, t) ==
   CASE T.mode = "end" -> {}
     [] T.mode = "fnret" -> Silent(Ret(SetX(S, t, [XX(S, t) EXCEPT !.exe = @ + 1]), t, N, T.res))     \* execution.record()
     [] T.mode = "canc" -> CancellerSteps(S, t)
+    [] T.mode = "ctl" ->
+         LET id == T.w.k IN
+         (CASE T.sub = "BhRelease" -> Silent(End([S EXCEPT !.pol[id] = @ - 1], t))
+           [] T.sub = "BhTake" ->
+                IF S.pol[id] < cfg.bhmax[id] THEN Silent([S EXCEPT !.pol[id] = @ + 1, !.th[t].sub = "took"])
+                ELSE Silent([S EXCEPT !.th[t].sub = "full"])
+           [] T.sub = "took" -> One(End(S, t), [ev |-> "BhTake", id |-> id, ok |-> TRUE])
+           [] T.sub = "full" -> One(End(S, t), [ev |-> "BhTake", id |-> id, ok |-> FALSE]))
+    [] T.mode = "onfull" ->       \* the bulkhead refused (ErrFull): OnFull listener, then the failure result goes up
+         One(Ret(S, t, T.i - 1, Failure(Leaf("ErrFull"))), Lab("OnFull", S, t, T.i, XX(S, t).last[T.obj], NoX))
+    [] T.mode = "hedgecnt" -> Silent([SetX(S, t, [XX(S, t) EXCEPT !.hdg = @ + 1]) EXCEPT !.th[t].mode = "hedgeev"])
     [] T.mode = "hedgeev" ->      \* OnHedge listener, then `go attempt`, then wait for a result or the next hedge delay
          LET i == T.i   p == Stack[i]   h == T.hg[i]   X == XX(S, t)   c == h.aobj[Len(h.aobj)]
              at == NewThread(T.x, "att", "down", i + 1, c, t, i, h.n, NoWait)
@@ -313,7 +346,8 @@ FreshExec(e) ==
   [objs |-> <<[par |-> 0, can |-> FALSE, cause |-> "-", hedge |-> FALSE, cf |-> FALSE],          \* 1: the caller's context
               [par |-> 1, can |-> FALSE, cause |-> "-", hedge |-> FALSE, cf |-> cfg.asyncFix]>>,   \* 2: async: child context of the result
    last |-> <<NoLast, NoLast>>, cres |-> NilPR, att |-> 1, ret |-> 0, hdg |-> 0, exe |-> 0, calls |-> 0, t0 |-> now,
-   rs |-> [j \in 1..N |-> [failed |-> 0, exceeded |-> FALSE]], final |-> NilPR, returned |-> FALSE, async |-> e.async, cancel1 |-> FALSE]
+   rs |-> [j \in 1..N |-> [failed |-> 0, exceeded |-> FALSE]], final |-> NilPR, returned |-> FALSE, async |-> e.async, cancel1 |-> FALSE,
+   stored |-> FALSE, doneflag |-> FALSE, closed |-> FALSE]
 
 \* one environment action (performed by the harness' controller at its scripted instant)
 EnvSteps(S) ==
@@ -326,14 +360,26 @@ EnvSteps(S) ==
                   m == [NewThread(e.x, "main", "down", 1, root, 0, 0, 0, NoWait) EXCEPT !.mode = IF N = 0 THEN "down" ELSE "down"] IN
               One([S EXCEPT !.xs[e.x] = X, !.th = Append(@, m)], [ev |-> "Start", x |-> e.x])
          [] e.what \in {"CtxCancel", "CtxDeadline", "AsyncCancel"} ->
-              LET c == [NewThread(e.x, "canc", "canc", 0, 0, 0, 0, 0, NoWait) EXCEPT
+              LET c == [NewThread(e.x, "canc", "canc", 0, 0, 0, 0, IF e.what = "AsyncCancel" THEN e.gap ELSE 0, NoWait) EXCEPT
                            !.sub = CASE e.what = "CtxCancel" -> "ctx" [] e.what = "CtxDeadline" -> "deadline" [] OTHER -> "async1"] IN
               One([S EXCEPT !.th = Append(@, c)], [ev |-> e.what, x |-> e.x])
-         [] e.what = "BhTake" ->
-              IF S.pol[e.id] < cfg.bhmax[e.id] THEN One([S EXCEPT !.pol[e.id] = @ + 1], [ev |-> "BhTake", id |-> e.id, ok |-> TRUE])
-              ELSE One(S, [ev |-> "BhTake", id |-> e.id, ok |-> FALSE])
-         [] e.what = "BhRelease" -> One([S EXCEPT !.pol[e.id] = @ - 1], [ev |-> "BhRelease", id |-> e.id])
+         \* standalone bulkhead API from the controller: the call's start is visible, the semaphore operation is a silent step
+         \* of a helper thread, and (TryAcquirePermit) the returned value is visible afterwards
+         [] e.what \in {"BhTake", "BhRelease"} ->
+              LET c == [NewThread(1, "ctl", "ctl", 0, 0, 0, 0, 0, NoWait) EXCEPT !.sub = e.what, !.w = [NoWait EXCEPT !.k = e.id]] IN
+              One([S EXCEPT !.th = Append(@, c)], [ev |-> e.what \o "Call", id |-> e.id])
          [] e.what = "Probe" -> One(S, [ev |-> "Probe", used |-> [id \in DOMAIN S.pol |-> IF id \in DOMAIN cfg.bhmax THEN S.pol[id] ELSE -1]])
+
+----------------------------------------------------------------------------
+(* ---- what readers of an async ExecutionResult can observe in a state (C15): no state change ---- *)
+ObsLabels(S) ==
+  UNION {LET X == S.xs[x] IN
+         IF X.objs = <<>> \/ ~X.async THEN {}
+         ELSE {[ev |-> "IsDone", x |-> x, v |-> X.doneflag]}
+              \cup (IF X.closed THEN {[ev |-> "DoneClosed", x |-> x],
+                                      [ev |-> "GetRet", x |-> x, r |-> X.final.r, e |-> X.final.e],
+                                      [ev |-> "Return", x |-> x, r |-> X.final.r, e |-> X.final.e]} ELSE {})
+         : x \in 1..Len(S.xs)}
 
 ----------------------------------------------------------------------------
 (* ---- the transition relation ---- *)
